@@ -28,12 +28,29 @@ type both struct {
 	m        model.Result
 	groups   [][]hx.Posting
 	grouped  bool
+	// refusedSpelling: the case writes a number / monetary variable with leading zeros and the
+	// execution refuses that text as ill-formed. Which spellings of a number a reader accepts
+	// is not fixed by any property (what an accepted text *means* is): such a case is set aside.
+	refusedSpelling bool
+}
+
+func refusedZeroPadded(ec *gen.ExecCase, r hx.Real) bool {
+	if r.ErrClass != model.EBadVariableText {
+		return false
+	}
+	for _, d := range ec.Script.Vars {
+		if val, ok := ec.Vars[d.Name]; ok && (d.Type == "number" || d.Type == "monetary") && val != gen.ZeroPad(val, 0) {
+			return true
+		}
+	}
+	return false
 }
 
 func runBoth(ec *gen.ExecCase) *both {
 	b := &both{ec: ec, failIdx: -1}
 	b.real, _ = hx.Run(ec, doubles.Superset)
 	b.failReal = b.real
+	b.refusedSpelling = refusedZeroPadded(ec, b.real)
 	if b.real.OK() {
 		b.groups, b.grouped = hx.Group(ec, b.real, doubles.Superset)
 	}
@@ -194,6 +211,9 @@ func init() {
 		Assumptions: []string{"the printed script is what the parser reads (C15)", "allotment sources must deliver each share exactly (language semantics); funds received inside a statement are not spendable in that statement"},
 	})
 	Generators["C03"] = func(t *rapid.T, tier string) any {
+		if gen.Chance(t, "c03.wide", 4) {
+			return wideCase(t)
+		}
 		k := gen.DefaultKnobs()
 		k.PSendAll = 10
 		k.PCall = 4
@@ -214,6 +234,10 @@ func checkC03(c any) *ev.Verdict {
 	v := &ev.Verdict{}
 	scriptLabels(ec, v)
 	b := runBoth(ec)
+	if b.refusedSpelling {
+		v.Skipped = "a number written with leading zeros was refused as ill-formed (allowed)"
+		return v
+	}
 	outcomeLabel(b.real, v)
 	if b.real.Panic != "" || b.real.ParseErrors > 0 {
 		v.Skipped = "panic or parse error (C12/C14 own these)"
@@ -299,6 +323,9 @@ func init() {
 		Assumptions: []string{"outcome agreement (success/failure) is C03's; cases where it fails are skipped here and counted"},
 	})
 	Generators["C04"] = func(t *rapid.T, tier string) any {
+		if gen.Chance(t, "c04.wide", 3) {
+			return wideCase(t)
+		}
 		k := gen.DefaultKnobs()
 		k.PKept = 0
 		k.PSendAll = 35
@@ -321,6 +348,10 @@ func checkC04(c any) *ev.Verdict {
 	v := &ev.Verdict{}
 	scriptLabels(ec, v)
 	b := runBoth(ec)
+	if b.refusedSpelling {
+		v.Skipped = "a number written with leading zeros was refused as ill-formed (allowed)"
+		return v
+	}
 	outcomeLabel(b.real, v)
 	if b.real.Panic != "" || b.real.ParseErrors > 0 {
 		v.Skipped = "panic or parse error (C12/C14 own these)"
@@ -433,6 +464,10 @@ func checkC05(c any) *ev.Verdict {
 	v := &ev.Verdict{}
 	scriptLabels(ec, v)
 	b := runBoth(ec)
+	if b.refusedSpelling {
+		v.Skipped = "a number written with leading zeros was refused as ill-formed (allowed)"
+		return v
+	}
 	outcomeLabel(b.real, v)
 	if b.real.Panic != "" || b.real.ParseErrors > 0 {
 		v.Skipped = "panic or parse error (C12/C14 own these)"
@@ -679,6 +714,10 @@ func checkC08(c any) *ev.Verdict {
 	v := &ev.Verdict{}
 	scriptLabels(ec, v)
 	b := runBoth(ec)
+	if b.refusedSpelling {
+		v.Skipped = "a number written with leading zeros was refused as ill-formed (allowed)"
+		return v
+	}
 	outcomeLabel(b.real, v)
 	if b.real.Panic != "" || b.real.ParseErrors > 0 {
 		v.Skipped = "panic or parse error (C12/C14 own these)"
